@@ -4,5 +4,5 @@ ConfigSet == {[stale |-> "reject", unsafe |-> "accept", maxdepth |-> 32],
               [stale |-> "warn",   unsafe |-> "reject", maxdepth |-> 32],
               [stale |-> "accept", unsafe |-> "warn",   maxdepth |-> 2],
               [stale |-> "reject", unsafe |-> "reject", maxdepth |-> 3]}
-AllShapes == {"chain", "siblings", "overlap", "twotals", "deep", "loop"}
+AllShapes == {"chain", "siblings", "overlap", "twotals", "deep", "loop", "halves"}
 =============================================================================
